@@ -386,14 +386,21 @@ def main():
                 runs = [f.result() for f in futs]
         else:
             runs.append(run_unit(prop, units[0], pcfg, cache))
-        kani_sel = list(pcfg.get('kani_quick', [])) + (list(pcfg.get('kani_thorough', [])) if tier == 'thorough' else [])
+        bounded = dict(pcfg.get('kani_bounded', {}))     # harness -> stated bound: BOUNDED stand-ins, never counted as proved
+        kani_sel = list(pcfg.get('kani_quick', [])) + (list(pcfg.get('kani_thorough', [])) if tier == 'thorough' else []) + sorted(bounded)
         if kani_sel:
             import kani_run
             kr = kani_run.run(kani_sel)
             extra.setdefault('report', {})['kani'] = {k: v for k, v in kr.items() if k != 'tail'}
+            for h in bounded:
+                if h not in kr['harnesses']:
+                    extra.setdefault('undecided', []).append({'message': 'bounded Kani harness %s produced no result' % h, 'fn': h, 'module': 'kani', 'kind': 'kani'})
             for h, v in sorted(kr['harnesses'].items()):
-                ob = 'kani:' + h
-                extra.setdefault('obligations', []).append(ob)
+                ob = ('bounded:kani:' if h in bounded else 'kani:') + h
+                if h in bounded:
+                    extra.setdefault('bounded', []).append({'harness': h, 'bound': bounded[h], 'status': v['status'], 'counted_as_proved': False})
+                else:
+                    extra.setdefault('obligations', []).append(ob)
                 if v['status'] == 'FAILED':
                     extra.setdefault('fails', []).append({'kind': 'kani', 'message': 'Kani harness %s FAILED' % h, 'fn': h, 'module': 'kani', 'src': 'kani/src/lib.rs',
                         'line': 0, 'rendered': kr.get('tail', ''), 'canary': None, 'labels': [], 'obligation': ob, 'props': [prop], 'clause': None, 'cmd': kr['cmd']})
@@ -436,9 +443,40 @@ def main():
         k = [k for k in known if k.get('obligation') == f['obligation']]
         if k: knownhits.append((f, k[0]))
         else: viol.append(f)
+    searched = {}
+    # A function whose contract could not be decided (its code was rewritten past the proof's anchors, or uses an API without a
+    # specification) is still executable: if a paired bounded Kani harness -- the same postcondition as executable code --
+    # finds an input and that input FAILS when replayed on the real crate, the failing input itself is the violation.
+    # (Nothing found => the verdict stays undecided; the bounded search never turns into an OK.)
+    if not viol and rel_undec and not os.environ.get('VERIF_NO_REPLAY_SEARCH'):
+        import replay_search
+        allcl = {}
+        for u in runs: allcl.update(u.gen.clauses)
+        tried = set()
+        for x in rel_undec:
+            if x.get('kind') not in ('lost-anchor', 'rlimit', 'lost-hint'): continue
+            for l in x.get('labels', []):
+                c = allcl.get(l)
+                if not c or not (prop in c['own'] or prop in c['dep']): continue
+                h = replay_search.harness_for(l) or replay_search.harness_for('%s@%s' % (l, x.get('fn') or ''))
+                if not h or h in tried: continue
+                tried.add(h)
+                try:
+                    sr = dict(replay_search.search(h, timeout=int(os.environ.get('VERIF_REPLAY_TIMEOUT', '400'))), harness=h)
+                except Exception as e:
+                    sr = {'status': 'search-error: %s' % e, 'harness': h}
+                if sr.get('status') == 'replayed-fails':
+                    f = {'obligation': l if '@' not in l and ' for ' not in (x.get('fn') or '') else '%s@%s' % (l, x['fn']), 'kind': 'undecided-by-verus+failing-input', 'fn': x.get('fn'), 'module': x.get('module'),
+                         'src': x.get('src') or '', 'line': x.get('line', 0), 'clause': c['text'],
+                         'message': 'Verus could not decide this function (%s); the paired bounded Kani harness %s found an input that fails on the real crate' % (x['message'][:200], h),
+                         'rendered': x.get('rendered', ''), 'props': [prop], 'labels': [l], 'canary': None}
+                    searched[f['obligation']] = sr
+                    viol.append(f); relevant.append(f)
+                    break
+            if viol: break
     failed_obs = set(f['obligation'] for f in relevant)
     for f in relevant:
-        if f['obligation'] not in obs: obs.append(f['obligation'])
+        if f['obligation'] not in obs and not f['obligation'].startswith('bounded:'): obs.append(f['obligation'])
     obs += extra.get('obligations', [])
     discharged = [o for o in obs if o not in failed_obs]
     for f, k in knownhits:
@@ -446,7 +484,6 @@ def main():
     rc = 0
     replay_paths = []
     # look for a concrete failing input for (at most) one violation that has a paired Kani harness; time-boxed
-    searched = {}
     if viol and not os.environ.get('VERIF_NO_REPLAY_SEARCH'):
         import replay_search
         for f in viol:
@@ -508,6 +545,7 @@ def main():
             'known_findings_matched': [f['obligation'] for f, k in knownhits],
             'undecided': [{'message': x['message'], 'where': x.get('fn') or x.get('module')} for x in rel_undec],
             'not_covered': pcfg.get('not_covered', []),
+            'bounded_stand_ins': extra.get('bounded', []),
             'replays': replay_paths,
             'thorough': extra.get('report', {}),
         },
